@@ -380,6 +380,8 @@ type TypeOps struct {
 	GrowCap func(l, c, n int) int
 	// Probes builds the steady-state operations of this type for C18.
 	Probes func(ch, length int) []Probe
+	// ZeroValue is new(signal.Buffer[T]): a buffer that no allocator made.
+	ZeroValue func() Buf
 	// SelfPair are the transfer functions between []T and Buffer[T].
 	SelfPair *PairOps
 }
@@ -403,6 +405,7 @@ func mkOps[T signal.SignalTypes](name string, named bool, base int) *TypeOps {
 		GrowCap:   func(l, c, n int) int { return cap(append(make([]T, l, c), make([]T, n)...)) },
 		Probes:    typeProbes[T](name),
 		Alloc:     func(a signal.Allocator) Buf { return &gbuf[T]{b: signal.Alloc[T](a), ti: ti} },
+		ZeroValue: func() Buf { return &gbuf[T]{b: new(signal.Buffer[T]), ti: ti} },
 		PoolAlloc: func(a signal.Allocator) Pool { p := signal.PoolAlloc[T](a); return &gpool[T]{p: &p, ti: ti} },
 		MakeSl: func(n int) Sl {
 			if n < 0 {
